@@ -680,3 +680,75 @@ func extractResolve(p *pkgs, out string) {
 	}
 	must(l.finish(out))
 }
+
+// ---------------------------------------------------------------------------
+// credentials / peer
+
+func extractCreds(p *pkgs, out string) {
+	l := newLean("Creds.lean", "httpgrpc/client.go: which TLS state the peer option is built from; security flag passed to ApplyPerRPCCreds")
+	pk := p.byPath[mod+"/httpgrpc"]
+	for _, fn := range []struct{ recv, goName, lean string }{{"Channel", "Invoke", "unaryPeerTLSFrom"}, {"clientStream", "doHttpCall", "streamPeerTLSFrom"}} {
+		_, fd := p.methodDecl(mod+"/httpgrpc", fn.recv, fn.goName)
+		if fd == nil || pk == nil {
+			fail("httpgrpc/client.go", fn.lean, "%s not found", fn.goName)
+			continue
+		}
+		src := ""
+		ast.Inspect(fd, func(n ast.Node) bool {
+			call, ok := n.(*ast.CallExpr)
+			if !ok {
+				return true
+			}
+			if id, ok := call.Fun.(*ast.Ident); !ok || id.Name != "getPeer" || len(call.Args) != 2 {
+				return true
+			}
+			if sel, ok := call.Args[1].(*ast.SelectorExpr); ok && sel.Sel.Name == "TLS" {
+				if t := pk.TypesInfo.TypeOf(sel.X); t != nil {
+					src = t.String()
+				}
+			}
+			return true
+		})
+		if src == "" {
+			fail("httpgrpc/client.go", fn.lean, "no getPeer(_, x.TLS) call in %s", fn.goName)
+			continue
+		}
+		l.printf("def %s : String := %s\n", fn.lean, leanStr(src))
+	}
+	// isChannelSecure argument: `<x>.Scheme == "https"` in Invoke and NewStream; `true` in-process
+	for _, fn := range []struct{ pkg, recv, goName, lean string }{
+		{"/httpgrpc", "Channel", "Invoke", "httpUnarySecureExpr"}, {"/httpgrpc", "Channel", "NewStream", "httpStreamSecureExpr"},
+		{"/inprocgrpc", "Channel", "Invoke", "inprocUnarySecureExpr"}, {"/inprocgrpc", "Channel", "NewStream", "inprocStreamSecureExpr"}} {
+		pk2, fd := p.methodDecl(mod+fn.pkg, fn.recv, fn.goName)
+		if fd == nil {
+			fail(fn.pkg, fn.lean, "%s not found", fn.goName)
+			continue
+		}
+		expr := ""
+		ast.Inspect(fd, func(n ast.Node) bool {
+			call, ok := n.(*ast.CallExpr)
+			if !ok {
+				return true
+			}
+			if sel, ok := call.Fun.(*ast.SelectorExpr); ok && sel.Sel.Name == "ApplyPerRPCCreds" && len(call.Args) == 4 {
+				switch a := call.Args[3].(type) {
+				case *ast.Ident:
+					expr = a.Name
+				case *ast.BinaryExpr:
+					if s, ok := constStr(pk2, a.Y); ok {
+						if sx, ok := a.X.(*ast.SelectorExpr); ok {
+							expr = sx.Sel.Name + a.Op.String() + s
+						}
+					}
+				}
+			}
+			return true
+		})
+		if expr == "" {
+			fail(fn.pkg, fn.lean, "ApplyPerRPCCreds(_, _, _, <secure>) not recognised in %s", fn.goName)
+			continue
+		}
+		l.printf("def %s : String := %s\n", fn.lean, leanStr(expr))
+	}
+	must(l.finish(out))
+}
